@@ -1617,7 +1617,9 @@ func (s *ImmuStore) releaseVLog(vLogID byte) error {
 	s.vLogsCond.L.Lock()
 	s.vLogs[vLogID-1].unlockedRef = s.vLogUnlockedList.PushBack(vLogID - 1) // unlocked
 	s.vLogsCond.L.Unlock()
-	s.vLogsCond.Signal()
+	// waiters wait for different things (fetchVLog: one particular value log, fetchAnyVLog: any):
+	// waking a single arbitrary one can wake a waiter whose log is still taken and lose the wake-up
+	s.vLogsCond.Broadcast()
 
 	return nil
 }
